@@ -34,9 +34,12 @@ def fsc_landscape(
                 sigma0 = backend.sqrt(
                     backend.sum_labels(pw0, labels=labels, index=index)
                 )
-                fsc = backend.sum_labels(cov, labels=labels, index=index) / (
-                    sigma0 * sigma1
-                )
+                cov_sum = backend.sum_labels(cov, labels=labels, index=index)
+                denom = sigma0 * sigma1
+                # shells without power correlate with nothing (cf. the NCC landscape)
+                has_power = denom > 0
+                fsc = backend.zeros(denom.shape)
+                fsc[has_power] = cov_sum[has_power] / denom[has_power]
                 out[iz, iy, ix] = float(fsc.mean())
     return out
 
